@@ -96,17 +96,34 @@ Proof. decide equality; apply string_dec. Defined.
 
 Definition dedup (l : list pep) : list pep := nodup pep_dec l.
 
+(* ---------- code variants ---------- *)
+(* Three defects of the resolution have a proposed repair (fixes/F40, F41, F42).  The model
+   follows the REPAIRED code ([repaired]); the behaviour before each repair is kept as the
+   other value of a flag, so that the correspondence check can follow the tree it is run
+   against (the flags are read off the corpus cases on every run) and so that the *_refuted
+   theorems stay statements about the unrepaired code ([legacy]). *)
+Record Fixes := {
+  fx40 : bool;    (* a backend port without a name matches a service port by number only *)
+  fx41 : bool;    (* getIPAddressesFromEndpoints returns every address once *)
+  fx42 : bool }.  (* ExternalName: a named backend port is looked up in the service *)
+
+Definition repaired : Fixes := {| fx40 := true; fx41 := true; fx42 := true |}.
+Definition legacy : Fixes := {| fx40 := false; fx41 := false; fx42 := false |}.
+
 (* ---------- lookups ---------- *)
 Definition find_svc (c : Cluster) (ns name : string) : option Service :=
   find (fun s => String.eqb (s_ns s) ns && String.eqb (s_name s) name) (c_svcs c).
 
 (* the port loop of getEndpointsForPortFromEndpointSlices / getServicePortForIngressPort:
-   (backendPort.Name == "" && port.Port == backendPort.Number) || port.Name == backendPort.Name *)
-Definition port_matches (bp : BPort) (p : SvcPort) : bool :=
-  (String.eqb (bp_name bp) "" && (sp_port p =? bp_num bp)) || String.eqb (sp_name p) (bp_name bp).
+     (backendPort.Name == "" && port.Port == backendPort.Number) ||
+     (backendPort.Name != "" && port.Name == backendPort.Name)
+   before F40 the second disjunct was  port.Name == backendPort.Name  alone *)
+Definition port_matches (fx : Fixes) (bp : BPort) (p : SvcPort) : bool :=
+  (String.eqb (bp_name bp) "" && (sp_port p =? bp_num bp)) ||
+  ((if fx40 fx then negb (String.eqb (bp_name bp) "") else true) && String.eqb (sp_name p) (bp_name bp)).
 
-Definition find_svc_port (bp : BPort) (ports : list SvcPort) : option SvcPort :=
-  find (port_matches bp) ports.
+Definition find_svc_port (fx : Fixes) (bp : BPort) (ports : list SvcPort) : option SvcPort :=
+  find (port_matches fx bp) ports.
 
 (* labels.Set(sel).AsSelector().Matches(labels): every pair of sel is in the labels *)
 Fixpoint lookup_label (k : string) (l : labels) : option string :=
@@ -176,8 +193,8 @@ Definition make_peps (P : Z) (eps : list Endpoint) : list pep :=
   dedup (flat_map (fun e => map (fun a => (join a P, e_ref e)) (e_addrs e)) eps).
 
 (* getEndpointsForPortFromEndpointSlices *)
-Definition eps_for_port (c : Cluster) (svc : Service) (bp : BPort) (sls : list Slice) : result (list pep) :=
-  match find_svc_port bp (s_ports svc) with
+Definition eps_for_port (fx : Fixes) (c : Cluster) (svc : Service) (bp : BPort) (sls : list Slice) : result (list pep) :=
+  match find_svc_port fx bp (s_ports svc) with
   | None => Err ENoPort
   | Some sp =>
       match get_target_port c svc sp with
@@ -191,26 +208,35 @@ Definition eps_for_port (c : Cluster) (svc : Service) (bp : BPort) (sls : list S
       end
   end.
 
+(* getExternalEndpointsForIngressBackend: ExternalName:port.  The port is the number of the
+   backend port, or (F42) for a named backend port the number of the service port of that name *)
+Definition external_eps (fx : Fixes) (svc : Service) (bp : BPort) : result (list pep * bool) :=
+  if fx42 fx && negb (String.eqb (bp_name bp) "") then
+    match find_svc_port fx bp (s_ports svc) with
+    | Some sp => Ok ([(join_plain (s_extname svc) (sp_port sp), "")], true)
+    | None => Err ENoPort
+    end
+  else Ok ([(join_plain (s_extname svc) (bp_num bp), "")], true).
+
 (* getEndpointsForIngressBackend: (endpoints, isExternal) *)
-Definition eps_for_backend (plus : bool) (c : Cluster) (svc : Service) (bp : BPort) : result (list pep * bool) :=
+Definition eps_for_backend (fx : Fixes) (plus : bool) (c : Cluster) (svc : Service) (bp : BPort) : result (list pep * bool) :=
   match svc_slices c svc with
   | [] =>
       match s_type svc with
-      | ExternalNameT =>
-          if plus then Ok ([(join_plain (s_extname svc) (bp_num bp), "")], true) else Err EExternalOSS
+      | ExternalNameT => if plus then external_eps fx svc bp else Err EExternalOSS
       | ClusterIPT => Err ENoSlices
       end
-  | sls => match eps_for_port c svc bp sls with
+  | sls => match eps_for_port fx c svc bp sls with
            | Ok l => Ok (l, false)
            | Err e => Err e
            end
   end.
 
 (* getServiceForIngressBackend + getEndpointsForIngressBackend; also getEndpointsForUpstream *)
-Definition resolve (plus : bool) (c : Cluster) (ns svcname : string) (bp : BPort) : result (list pep * bool) :=
+Definition resolve (fx : Fixes) (plus : bool) (c : Cluster) (ns svcname : string) (bp : BPort) : result (list pep * bool) :=
   match find_svc c ns svcname with
   | None => Err ENoSvc
-  | Some svc => eps_for_backend plus c svc bp
+  | Some svc => eps_for_backend fx plus c svc bp
   end.
 
 (* ---------- the sub-selector variant ---------- *)
@@ -250,8 +276,12 @@ Record Backend := {
   b_clusterip : bool;          (* Ingress annotation nginx.org/use-cluster-ip / upstream useClusterIP *)
   b_subsel : labels }.         (* VirtualServer(Route) upstream subselector *)
 
-Definition addrs_of (r : result (list pep * bool)) : list string :=
-  match r with Ok (l, _) => map fst l | Err _ => [] end.
+(* getIPAddressesFromEndpoints: the addresses; (F41) each address once *)
+Definition addr_list (fx : Fixes) (l : list pep) : list string :=
+  if fx41 fx then nodup string_dec (map fst l) else map fst l.
+
+Definition addrs_of (fx : Fixes) (r : result (list pep * bool)) : list string :=
+  match r with Ok (l, _) => addr_list fx l | Err _ => [] end.
 
 Definition is_external (r : result (list pep * bool)) : bool :=
   match r with Ok (_, x) => x | Err _ => false end.
@@ -267,15 +297,15 @@ Definition clusterip_port (svc : Service) (bp : BPort) : Z :=
   else bp_num bp.
 
 (* (addresses written to Endpoints[key], service recorded in ExternalNameSvcs) *)
-Definition endpoints_entry (plus : bool) (c : Cluster) (ns : string) (b : Backend) : list string * bool :=
+Definition endpoints_entry (fx : Fixes) (plus : bool) (c : Cluster) (ns : string) (b : Backend) : list string * bool :=
   match b_kind b with
   | KIng =>
-      let r := resolve plus c ns (b_svc b) (b_port b) in
+      let r := resolve fx plus c ns (b_svc b) (b_port b) in
       match find_svc c ns (b_svc b) with
       | Some svc =>
           if negb (is_external r) && b_clusterip b
           then ([join (s_clusterIP svc) (clusterip_port svc (b_port b))], false)
-          else (addrs_of r, is_external r && plus)
+          else (addrs_of fx r, is_external r && plus)
       | None => ([], false)
       end
   | KVS | KVSR =>
@@ -286,13 +316,13 @@ Definition endpoints_entry (plus : bool) (c : Cluster) (ns : string) (b : Backen
         end
       else
         match b_subsel b with
-        | [] => let r := resolve plus c ns (b_svc b) (b_port b) in (addrs_of r, is_external r && plus)
+        | [] => let r := resolve fx plus c ns (b_svc b) (b_port b) in (addrs_of fx r, is_external r && plus)
         | sub => match resolve_sub c ns (b_svc b) (bp_num (b_port b)) sub with
-                 | Ok l => (map fst l, false)
+                 | Ok l => (addr_list fx l, false)
                  | Err _ => ([], false)
                  end
         end
-  | KTS => let r := resolve plus c ns (b_svc b) (b_port b) in (addrs_of r, is_external r && plus)
+  | KTS => let r := resolve fx plus c ns (b_svc b) (b_port b) in (addrs_of fx r, is_external r && plus)
   end.
 
 (* ---------- the server entries of the generated upstream block ---------- *)
